@@ -128,6 +128,14 @@ InstVals == C("instvals", <<R("r1", SG, 0, "a", "inst", FALSE, <<>>),
                             R("r5", SC, 2, "a", "ctorerr", TRUE, <<P("S0"), PK("S0")>>),
                             R("r6", SC, 3, "a", "ctorerr", TRUE, <<PG("S1")>>)>>)
 
+\* instance values that are NOT pointers (type W, registered by value): unkeyed, named, three group members
+InstValsV == C("instvalsv", <<R("r1", SG, 0, "a", "instv", FALSE, <<>>),
+                              Named(R("r2", SG, 0, "a", "instv", FALSE, <<>>)),
+                              Grouped(R("r3", SG, 0, "a", "instv", FALSE, <<>>)),
+                              Grouped(R("r4", SG, 0, "a", "instv", FALSE, <<>>)),
+                              Grouped(R("r5", SG, 0, "a", "instv", FALSE, <<>>)),
+                              R("r6", SC, 1, "a", "ctorerr", FALSE, <<>>)>>)
+
 \* defect shapes (Build must refuse): cycle, cycle through a group, lifetime conflict, missing dependency
 Cycle2 == C("cycle2", <<R("r1", SC, 0, "a", "ctorerr", FALSE, <<P("S1")>>),
                         R("r2", SC, 1, "a", "ctorerr", FALSE, <<P("S0")>>)>>)
@@ -301,7 +309,7 @@ IfaceSing == C("ifacesing", <<R("r1", SG, 0, "a", "ifacerr", FALSE, <<>>),
 CfgMore == {Iface, IfaceSing, Embedded, AliasDeps, DupDeps, DiamondPO, DiamondPOKG, Alias2Transient, OptionalSing, GroupTransDeps, GroupMixedOK, AliasGroupAsym}
 
 Plain == {Basic, Chain, Keyed, Group, GroupScoped, GroupDeps, Multi, MultiTr, OutKN, OutKNSing, Alias1, Alias2,
-          Alias2Scoped, Diamond2, Optional, Inits, InitSing, Builtin, InstVal, InstVals} \cup CfgForms \cup CfgMore \cup CfgRemoved
+          Alias2Scoped, Diamond2, Optional, Inits, InitSing, Builtin, InstVal, InstVals, InstValsV} \cup CfgForms \cup CfgMore \cup CfgRemoved
 Defective == {Cycle2, CycleGroup, Captive, CaptiveGroup, MissingDep, GroupMixedCaptive, GroupMixedCaptive2, CycleOptional, MissingKeyed}
              \cup CfgRemovedDefective \cup {CycleEmbedded, CaptiveAlias2, CaptiveAlias2Tr, CycleAlias, InitTransientMissing, InitSingMissing}
 
